@@ -381,6 +381,21 @@ def b_tuple(ex, pos, kws, st):
     raise Unsupported("tuple() of non-sequence")
 
 
+def b_sorted(ex, pos, kws, st):
+    (v,) = pos
+    h = ex.hint_of(v, st)
+    z = ex.term(v, st) if not isinstance(v, CellRef) else (ex.seq_snap(v, st) if h == "list" else ex.dict_snap(v, st))
+    r = M.fresh("sorted")
+    n = M.llen(z) if h in ("list", "tuple") else M.klen(z)
+    j = z3.Int("j")
+    _trust(ex, "sorted(xs): a list with the same number of elements, each a member of xs (order not modelled)")
+    st.assume(M.is_Ref(r), M.rcls(r) == ex.ct.id("list"), M.llen(r) == n)
+    if h in ("set", "dict", "frozenset"):
+        st.assume(z3.ForAll([j], z3.Implies(z3.And(0 <= j, j < n), M.has(z, M.lat(r, j))),
+                            patterns=[M.lat(r, j)]))
+    return [(st, T(r, "list"))]
+
+
 def b_set(ex, pos, kws, st):
     if not pos:
         return [(st, ex.new_cell(st, DictC(ex.empty_dict_term(st, "S"))))]
